@@ -515,6 +515,15 @@ class Evaluator:
                 n = z3.If(b.term > 0, b.term, z3.IntVal(0))
                 return mk_seq(a.ty, n, z3.K(z3.IntSort(), z3.simplify(seq_at(a, z3.IntVal(0)))))
             return self.unsupported(state, node, "list repetition")
+        if isinstance(op, ast.Add) and {a.ty, b.ty} == {T.OPAQUE, T.NAME}:
+            # abstracted text + a string: the result is sanitised iff the abstracted part is
+            # when the other part is a literal (taint ghost of C20; literals carry no path)
+            o, n_ = (a, b) if a.ty == T.OPAQUE else (b, a)
+            if n_.meta and n_.meta[0] == 'const':
+                from . import ghost as _g
+                r = fresh(T.OPAQUE, 'textcat')
+                state.assume(_g.SANITIZED(r.term) == _g.SANITIZED(o.term))
+                return r
         if a.ty == T.OPAQUE or b.ty == T.OPAQUE:
             raise Unsupported("arithmetic on abstracted value")
         # Opt[number]: arithmetic on None is a TypeError (obligation), otherwise the number
